@@ -30,7 +30,10 @@ func c12Publish(c *Ctx) {
 	// every load of data/err outside such a publishing sequence is preceded by a receive from done -
 	// wherever these are written (helper methods or their call sites)
 	closes, loads := 0, 0
-	for _, fn := range c.subjects() {
+	for _, fn := range c.Funcs {
+		if fn.Pkg != c.LibSSA && topOf(fn).Pkg != c.LibSSA {
+			continue
+		}
 		var cls, recvs, lds []ssa.Instruction
 		stores := map[string][]ssa.Instruction{}
 		own := func(ins ssa.Instruction) bool { return ins.Parent() == fn }
@@ -241,6 +244,9 @@ func c12Leader(c *Ctx) {
 				bad = append(bad, "queue.delete is called on a different queue than loadOrStore")
 			}
 			idv := da[1]
+			if ls := leaves(idv); len(ls) == 1 {
+				idv = ls[0] // through the parameter of a new helper
+			}
 			if idParam != nil && !isParam(idv, idParam) {
 				bad = append(bad, "queue.delete removes a different id than the one requested")
 			}
@@ -433,13 +439,18 @@ func publishSites(fn *ssa.Function) []publishSite {
 			out = append(out, publishSite{call, a[1], a[2]})
 		}
 	}
-	instrs(fn, func(_ *ssa.BasicBlock, _ int, ins ssa.Instruction) {
-		if !isCloseDone(ins) || ins.Parent() != fn {
+	// markDone written out - in the function itself or in a new helper it calls ("queue.complete")
+	deep := map[*ssa.Function]bool{}
+	for _, g := range fnsDeep(fn) {
+		deep[g] = true
+	}
+	instrsAll(fn, func(_ *ssa.BasicBlock, _ int, ins ssa.Instruction) {
+		if !isCloseDone(ins) || !deep[ins.Parent()] {
 			return
 		}
 		ps := publishSite{at: ins}
-		instrs(fn, func(_ *ssa.BasicBlock, _ int, i2 ssa.Instruction) {
-			if f, v := resultStore(i2); f != "" && i2.Parent() == fn && instrDominates(i2, ins) {
+		instrsAll(fn, func(_ *ssa.BasicBlock, _ int, i2 ssa.Instruction) {
+			if f, v := resultStore(i2); f != "" && i2.Parent() == ins.Parent() && instrDominates(i2, ins) {
 				if f == "request.data" {
 					ps.data = v
 				} else {
